@@ -164,6 +164,12 @@ def r10_4(run, model):
             lits = [x["value"] for x in S.walk(b.body) if x["k"] == "Lit" and x.get("lit") == "Str"]
             verbs = [v for v in lits if v.startswith("%")]
             extra = [a["value"] for a in c["args"][2:] if a["k"] == "Lit"]
+            # a verb handed over as a named constant of the runtime module
+            for a in c["args"][2:]:
+                if a["k"] == "Path" and len(a["segs"]) == 1:
+                    for it, _m in model.all_items(RUNTIME):
+                        if it["k"] == "Const" and it.get("name") == a["segs"][0] and (it.get("expr") or {}).get("k") == "Lit":
+                            extra.append(it["expr"]["value"])
             verb = extra[0] if extra else (verbs[0] if len(set(verbs)) == 1 else None)
             is_float = "Float" in gty
             ok = verb is not None and ((verb in ("%d",)) != is_float)
